@@ -116,6 +116,30 @@ Section Model.
   Definition mpm_monomer (n : nat) (words : list (list nat)) (inst : bmask) (mon : list R) : lmat R :=
     mk n (fun i j => vget o mon (mutant_motif words inst i j) * (if bget inst i j then 1 else 0)).
 
+  (** PosnSpecificMonomerProbModel ("monomers"): one monomer distribution per position.
+      calc_word_probs: product over positions of monomer_probs[i][word[i]], then result /= result.sum()
+      (the sum runs over the model's own states, which may be a strict subset of all words:
+      sense codons, or a motifs= subset) *)
+  Fixpoint prod_pos (mons : list (list R)) (w : list nat) : R :=
+    match mons, w with
+    | m :: mons', a :: w' => vget o m a * prod_pos mons' w'
+    | _, _ => 1
+    end.
+  Definition normalise (raw : list R) : list R := let tot := suml raw in map (fun x => x / tot) raw.
+  Definition posn_word_probs (words : list (list nat)) (mons : list (list R)) : list R :=
+    normalise (map (prod_pos mons) words).
+
+  (** mutated_posn[i,j]: the differing position (0 where the mask is false) *)
+  Definition mutated_posn (words : list (list nat)) (inst : bmask) (i j : nat) : nat :=
+    if bget inst i j then
+      match diff_pos 0 (word words i) (word words j) with d :: _ => d | [] => 0%nat end
+    else 0%nat.
+
+  (** calc_word_weight_matrix: monomer_probs.take(mutated_posn * size + mutant_motif) * mask *)
+  Definition mpm_posn (n : nat) (words : list (list nat)) (inst : bmask) (mons : list (list R)) : lmat R :=
+    mk n (fun i j => vget o (nth (mutated_posn words inst i j) mons []) (mutant_motif words inst i j)
+                     * (if bget inst i j then 1 else 0)).
+
   (** index of the context of [w] at position [d] in the (len-1)-word alphabet
       over [k] monomers (first letter most significant) *)
   Fixpoint remove_at (d : nat) (w : list nat) : list nat :=
